@@ -807,6 +807,57 @@ pub proof fn lemma_cic_none(s: Seq<BlockRange>, r: BlockRange)
     }
 }
 
+pub proof fn lemma_cic_disjoint(s: Seq<BlockRange>, r: BlockRange, a: int, b: int)
+    requires
+        wf_seq(s), r_valid(r), 0 <= a <= b < s.len(),
+        forall|k: int| 0 <= k < s.len() ==> (touches(#[trigger] s[k], r) <==> a <= k <= b),
+    ensures
+        ISet::new(|h: int| seq_has(s, h)).disjoint(r_set(r)) <==> (forall|k: int| a <= k <= b ==> !overlaps(#[trigger] s[k], r)),
+{
+    lemma_disjoint_iff(s, r);
+    if forall|k: int| a <= k <= b ==> !overlaps(#[trigger] s[k], r) {
+        assert forall|k: int| 0 <= k < s.len() implies !overlaps(#[trigger] s[k], r) by {
+            if !(a <= k <= b) { assert(!touches(s[k], r)); }
+        }
+    }
+}
+pub proof fn lemma_cic_neighbour(s: Seq<BlockRange>, r: BlockRange, a: int, b: int, x: int)
+    requires
+        wf_seq(s), r_valid(r), 0 <= a <= b < s.len(),
+        forall|k: int| 0 <= k < s.len() ==> (touches(#[trigger] s[k], r) <==> a <= k <= b),
+        x == r@.start - 1 || x == r@.end + 1,
+    ensures
+        ISet::new(|h: int| seq_has(s, h)).contains(x) <==> (exists|k: int| a <= k <= b && (#[trigger] s[k])@.start <= x <= s[k]@.end),
+{
+    let v = ISet::new(|h: int| seq_has(s, h));
+    if v.contains(x) {
+        let k = choose|k: int| 0 <= k < s.len() && r_has(#[trigger] s[k], x);
+        assert(touches(s[k], r));
+    }
+    if exists|k: int| a <= k <= b && (#[trigger] s[k])@.start <= x <= s[k]@.end {
+        let k = choose|k: int| a <= k <= b && (#[trigger] s[k])@.start <= x <= s[k]@.end;
+        assert(r_has(s[k], x));
+    }
+}
+pub proof fn lemma_cic_shape(s: Seq<BlockRange>, r: BlockRange, a: int, b: int)
+    requires
+        wf_seq(s), r_valid(r), 0 <= a <= b < s.len(),
+        forall|k: int| 0 <= k < s.len() ==> (touches(#[trigger] s[k], r) <==> a <= k <= b),
+    ensures
+        b - a >= 2 ==> overlaps(s[a + 1], r),
+        b - a == 1 && !overlaps(s[a], r) && !overlaps(s[b], r) ==> s[a]@.end + 1 == r@.start && r@.end + 1 == s[b]@.start,
+{
+    assert(touches(s[a], r));
+    assert(touches(s[b], r));
+    if b - a >= 2 {
+        assert(touches(s[a + 1], r));
+        assert(s[a]@.end + 1 < s[a + 1]@.start);
+        assert(s[a + 1]@.end + 1 < s[b]@.start);
+    }
+    if b - a == 1 {
+        assert(s[a]@.end + 1 < s[b]@.start);
+    }
+}
 pub proof fn lemma_cic_some(s: Seq<BlockRange>, r: BlockRange, a: int, b: int)
     requires
         wf_seq(s), r_valid(r), 0 <= a <= b < s.len(),
@@ -820,39 +871,10 @@ pub proof fn lemma_cic_some(s: Seq<BlockRange>, r: BlockRange, a: int, b: int)
         // two touching, non-overlapping ranges are adjacent on both sides
         b - a == 1 && !overlaps(s[a], r) && !overlaps(s[b], r) ==> s[a]@.end + 1 == r@.start && r@.end + 1 == s[b]@.start,
 {
-    lemma_disjoint_iff(s, r);
-    assert(touches(s[a], r));
-    assert(touches(s[b], r));
-    let v = ISet::new(|h: int| seq_has(s, h));
-    if forall|k: int| a <= k <= b ==> !overlaps(#[trigger] s[k], r) {
-        assert forall|k: int| 0 <= k < s.len() implies !overlaps(#[trigger] s[k], r) by {
-            if !(a <= k <= b) { assert(!touches(s[k], r)); }
-        }
-    }
-    if v.contains(r@.start - 1) {
-        let k = choose|k: int| 0 <= k < s.len() && r_has(#[trigger] s[k], r@.start - 1);
-        assert(touches(s[k], r));
-    }
-    if v.contains(r@.end + 1) {
-        let k = choose|k: int| 0 <= k < s.len() && r_has(#[trigger] s[k], r@.end + 1);
-        assert(touches(s[k], r));
-    }
-    if exists|k: int| a <= k <= b && (#[trigger] s[k])@.start <= r@.start - 1 <= s[k]@.end {
-        let k = choose|k: int| a <= k <= b && (#[trigger] s[k])@.start <= r@.start - 1 <= s[k]@.end;
-        assert(r_has(s[k], r@.start - 1));
-    }
-    if exists|k: int| a <= k <= b && (#[trigger] s[k])@.start <= r@.end + 1 <= s[k]@.end {
-        let k = choose|k: int| a <= k <= b && (#[trigger] s[k])@.start <= r@.end + 1 <= s[k]@.end;
-        assert(r_has(s[k], r@.end + 1));
-    }
-    if b - a >= 2 {
-        assert(touches(s[a + 1], r));
-        assert(s[a]@.end + 1 < s[a + 1]@.start);
-        assert(s[a + 1]@.end + 1 < s[b]@.start);
-    }
-    if b - a == 1 {
-        assert(s[a]@.end + 1 < s[b]@.start);
-    }
+    lemma_cic_disjoint(s, r, a, b);
+    lemma_cic_neighbour(s, r, a, b, r@.start - 1);
+    lemma_cic_neighbour(s, r, a, b, r@.end + 1);
+    lemma_cic_shape(s, r, a, b);
 }
 // ---------------------------------------------------------------------------
 // BlockRangeExt: contracts live on the trait declaration (Verus forbids
